@@ -83,7 +83,8 @@ def encode(item):
 def ident_of(item):
     base = (item['source'], item['time'], item['seqno'])
     if item['frag']:
-        base += tuple(item['frag'])
+        # offset, total length, and the fragment's own payload length (RFC 9171 bundle identity)
+        base += tuple(item['frag']) + (item['plen'],)
     return base
 
 
@@ -158,12 +159,12 @@ def _drive(run, plan, har):
         if rpts or errs:
             run.viols.append(('report', kind + '-unrequested-output', 'unexpected administrative or malformed output at %s' % where))
             return
-        if dels and (dels[0]['ident'] != ident_of(item) or dels[0]['payload'] != bc.body(item['tag'], item['plen'])):
+        if dels and (dels[0]['ident'][:5] != ident_of(item)[:5] or dels[0]['payload'] != bc.body(item['tag'], item['plen'])):
             run.viols.append(('deliver', 'wrong-bundle', 'delivered %r, received %r' % (dels[0]['ident'], ident_of(item))))
             return
         if fwds:
             pri = fwds[0]['primary']
-            if rfc9171.ident(pri) != ident_of(item) or pri['destination'] != item['dest']:
+            if rfc9171.ident(pri) != ident_of(item)[:5] or pri['destination'] != item['dest']:
                 run.viols.append(('forward', 'wrong-bundle', 'forwarded %r to %s, received %r to %s' % (rfc9171.ident(pri), pri['destination'], ident_of(item), item['dest'])))
                 return
 
